@@ -36,3 +36,18 @@
        (=> (>= L 15) (enc.ext D d (+ p 1) (- L 15)))
        (enc.lits D d lp S s a L)
        (= p2 (+ lp L))))
+; A match of length M4 + 4 at position pos of the source with offset off copies bytes that the
+; decoder has already produced: it lies inside the source read so far, and the source repeats there.
+(define-fun enc.matchOK ((S (Array Int Int)) (s Int) (pos Int) (M4 Int) (off Int)) Bool
+  (and (<= off pos)
+       (forall ((q Int)) (! (=> (and (<= pos q) (< q (+ pos M4 4))) (= (select S (idx s q)) (select S (idx s (- q off))))) :pattern ((select S (idx s q)))))))
+
+; ---- lemmas (proved by the engine, pseudo function lemmas.enc) ----
+; a sequence depends only on its own bytes p .. p2-1 of the output
+(lemma enc.seq_frame
+  :props (C01)
+  :vars ((D1 (Array Int Int)) (D2 (Array Int Int)) (d Int) (p Int) (S (Array Int Int)) (s Int) (a Int) (L Int) (M4 Int) (off Int) (lp Int) (p2 Int))
+  :statement (=> (and (enc.seq D1 d p S s a L M4 off lp p2)
+                      (forall ((j Int)) (! (=> (and (<= p j) (< j p2)) (= (select D2 (idx d j)) (select D1 (idx d j)))) :pattern ((select D2 (idx d j))))))
+                 (enc.seq D2 d p S s a L M4 off lp p2))
+  :pattern ((enc.seq D1 d p S s a L M4 off lp p2) (enc.seq D2 d p S s a L M4 off lp p2)))
